@@ -38,13 +38,13 @@ PROPS = {
     'C06': dict(verus=['pbgen'], kani=K_PB + ['bnd_pb_merge_repeated_packed'], assumptions=A_COMMON[:1] + ['format! on error paths is stubbed in the Kani harnesses'],
                 not_covered='generated messages: only the two match tables that select the codec per scalar type (lower_ty, ty_module) are covered, as verbatim fragments; repeated/map/oneof positions of the generator and map entry layout are not covered'),
     'C07': dict(verus=['skip', 'binary', 'binary_le', 'compact_skip', 'async_skip', 'async_binary', 'async_binary_le', 'async_compact_skip', 'async_compact', 'unsafe_skip'], kani=[], assumptions=A_COMMON + ['A14 SmallVec<[SkipData; 8]> is replaced by Vec<SkipData> (rule D20): push/pop/last/last_mut/is_empty assumed to behave as Vec\'s', 'the unchecked primitive reads read_byte/read_i16/read_i32 enter Verus through their safety contract (the range read is inside the buffer) and the value statement the complete Kani harnesses c11_r_* prove on the real unsafe code'],
-                not_covered='decided: (1) the recursive default skipper and (2) the async default skipper, each against a recursive grammar of binary-protocol values (bskip_val: structs, lists, sets, maps nested to the depth limit), with the refinement obligations that TBinaryProtocol<&mut Bytes> and TAsyncBinaryProtocol<R> (both byte orders) implement the reader contracts the skippers are verified against; (3) the compact reader\'s own skipper (added by the G4 fix) against a recursive grammar of compact-protocol values (cskip_val: varints of bounded length, bool-in-header fields, short/long field headers with the i16 delta check, short/long list headers, one-byte empty map), on top of the re-verified real bodies of the compact reader: Ok(n) <=> the input starts with a well-formed value of that type occupying n bytes, which are exactly the bytes consumed, reader state (field-id stack, last id) restored; depth 0 => Err; termination by depth. (4) the async default skipper a second time, as a generic function over the compact reader contract, against the same compact grammar, with the refinement obligation for TAsyncCompactProtocol<R>. (5) the ITERATIVE skipper of the unchecked binary reader (explicit work stack, fixed-size fast paths via the table BINARY_BASIC_TYPE_FIXED_SIZE), within the documented contract of the unchecked codec (the input holds a complete well-formed value of the type): it returns exactly the size the binary value grammar assigns, advances the cursor by exactly that much, every unchecked read it issues is inside the buffer, and it terminates; the invariant interprets the work stack as a continuation of the recursive grammar (thrift_iskip_spec.rs). Not decided for the unchecked reader: behaviour on malformed input (outside its contract by design); TBinaryUnsafeInputProtocol::skip itself (re-derives the raw-pointer slice) is not extracted'),
+                not_covered='decided: (1) the recursive default skipper and (2) the async default skipper, each against a recursive grammar of binary-protocol values (bskip_val: structs, lists, sets, maps nested to the depth limit), with the refinement obligations that TBinaryProtocol<&mut Bytes> and TAsyncBinaryProtocol<R> (both byte orders) implement the reader contracts the skippers are verified against; (3) the compact reader\'s own skipper (added by the G4 fix) against a recursive grammar of compact-protocol values (cskip_val: varints of bounded length, bool-in-header fields, short/long field headers with the i16 delta check, short/long list headers, one-byte empty map), on top of the re-verified real bodies of the compact reader: Ok(n) <=> the input starts with a well-formed value of that type occupying n bytes, which are exactly the bytes consumed, reader state (field-id stack, last id) restored; depth 0 => Err; termination by depth. (4) the async default skipper a second time, as a generic function over the compact reader contract, against the same compact grammar, with the refinement obligation for TAsyncCompactProtocol<R>. (5) the ITERATIVE skipper of the unchecked binary reader (explicit work stack, fixed-size fast paths via the table BINARY_BASIC_TYPE_FIXED_SIZE), within the documented contract of the unchecked codec (the input holds a complete well-formed value of the type): it returns exactly the size the binary value grammar assigns, advances the cursor by exactly that much, every unchecked read it issues is inside the buffer, and it terminates; the invariant interprets the work stack as a continuation of the recursive grammar (thrift_iskip_spec.rs). Not decided for the unchecked reader: behaviour on malformed input (outside its contract by design); TBinaryUnsafeInputProtocol::skip (drop the consumed prefix, re-derive the view, run the iterative skipper) is decided with the re-derivation as an assumed step'),
     'C09': dict(verus=THRIFT_UNITS + ['skip', 'compact_skip', 'async_skip', 'async_compact_skip', 'appexc', 'async_binary', 'async_binary_le', 'async_compact'], kani=['a3_varint_decode_total', 'rwext_read_i16', 'rwext_read_i32', 'rwext_read_i64', 'rwext_read_u64'], assumptions=A_COMMON,
                 not_covered=NOT_GEN + '; unchecked (unsafe) readers are outside the checked-reader scope of C09'),
     'C10': dict(verus=['prost'], kani=['pb_varint_decode_total', 'pb_varint_decode_value', 'pb_varint_roundtrip', 'pb_varint_chain', 'pb_fixed_truncated'], assumptions=A_COMMON[:1] + ['decode_varint_slice (unsafe, unrolled) enters Verus through an assumed contract (Ok((v, k)) <=> the slice starts with a well-formed varint of value v and length k); Kani pb_varint_decode_total / pb_varint_decode_value prove that statement on the real code for every input of 0..=11 bytes; that longer slices behave like their first 10 bytes is read off the unrolled code, not proved', 'derive(Clone) of DecodeContext replaced by its field-wise expansion; core::cmp::min redirected to a usize wrapper'],
                 not_covered='decided: decode_varint (dispatch, slow path loop with the shift-and-or accumulation proved equal to the base-128 value), decode_key, check_wire_type, WireType::try_from, DecodeContext::{enter_recursion,limit_reached}: Ok(v) <=> the input starts with a well-formed varint / key, v is its value, exactly its bytes are consumed; skip_field against a recursive grammar of unknown fields (pskip/pgroup: groups end at the end-group key with the group\'s own field number, nest to the recursion budget, length prefixes larger than the input are rejected): Ok <=> well-formed, consumption exact, terminates with the budget as measure. encoding::bytes::merge (length prefix checked against the input before copy_to_bytes, exact consumption, value replaced by exactly the payload); encoding::group::merge is total (terminates: every iteration consumes a key; wrong wire type or exhausted budget => Err) over an assumed Message::merge_field that never lengthens the buffer. Not decided: that nested messages/groups receive a strictly smaller budget (the callee is emitted code), merge_loop (FnMut closure), string/message/group/map merge, bytes::merge_one_copy (Buf::take), Message::merge_length_delimited, wrappers in types.rs and generated merge_field'),
     'C11': dict(verus=['unsafe_skip', 'unsafe_lb'], kani=K_C11_W + K_C11_R, assumptions=A_COMMON[:1] + [A_LB, 'the documented preconditions of the unchecked codec (window of the reported size; complete well-formed input) are the harness assumptions'],
-                not_covered='decided besides the per-primitive Kani harnesses: the unchecked header readers read_field_begin / read_list_begin / read_set_begin / read_map_begin and the iterative skipper (Verus unit unsafe_skip: values per the binary grammar, cursor advanced by exactly the encoded size, every unchecked read in bounds given a complete well-formed input). The LinkedBytes writer variant is decided only for the order of operations of its zero-copy paths over assumed primitive contracts (unit unsafe_lb). Not decided: its primitives, read_bytes/read_faststr/get_bytes (they re-derive the raw-pointer view of the transport)'),
+                not_covered='decided besides the per-primitive Kani harnesses: the unchecked header readers read_field_begin / read_list_begin / read_set_begin / read_map_begin and the iterative skipper (Verus unit unsafe_skip: values per the binary grammar, cursor advanced by exactly the encoded size, every unchecked read in bounds given a complete well-formed input). The unchecked reader\'s advance / read_bytes / get_bytes / skip are decided for their cursor and transport bookkeeping (the view `buf` stays equal to the transport, index reset, exactly the requested bytes split off) with the raw re-derivation of the view as an assumed step (D22). The LinkedBytes writer variant is decided only for the order of operations of its zero-copy paths over assumed primitive contracts (unit unsafe_lb). Not decided: the raw stores/loads themselves beyond the Kani per-primitive harnesses, read_faststr / read_bytes_vec / read_string of the unchecked reader'),
     'C12': dict(verus=['async_binary', 'async_binary_le', 'async_compact', 'async_skip', 'async_compact_skip'], kani=[], assumptions=A_COMMON + [
                     'A7 tokio AsyncReadExt::{read_u8,read_i8,read_i16[_le],read_i32[_le],read_i64[_le],read_f64[_le],read_exact,take(n).read_to_end} deliver the next bytes of the stream in order regardless of chunking or Pending wake-ups, or fail when the stream ends first (vf/units/_asyncrd.vu); the delivery-schedule quantifier of C12 is discharged by this assumption, not by pilota-side proof; for take(n).read_to_end it is also assumed that tokio reserves memory in proportion to the bytes delivered',
                     'D8: async fn -> fn, .await dropped: each awaited read is an atomic call'],
